@@ -242,6 +242,58 @@ func init() {
 		g.def("windowUpdateCreatesBuffer", "Bool", boolLean(creates && accessorCreates))
 		g.def("connWindowUpdateFallsThrough", "Bool", boolLean(!connReturns))
 
+		// ---- a header block always yields at least one frame -----------------------------------------
+		// splitIntoChunks: some statement OUTSIDE every loop adds the first chunk (append to the result,
+		// or a composite literal with an element)
+		inLoop := func(root ast.Node, target ast.Node) bool {
+			found := false
+			ast.Inspect(root, func(x ast.Node) bool {
+				switch l := x.(type) {
+				case *ast.ForStmt, *ast.RangeStmt:
+					if l.Pos() <= target.Pos() && target.End() <= l.End() {
+						found = true
+					}
+				}
+				return true
+			})
+			return found
+		}
+		firstChunk := false
+		if fd := funcDecl(relay, "", "splitIntoChunks"); fd != nil {
+			ast.Inspect(fd.Body, func(x ast.Node) bool {
+				switch n := x.(type) {
+				case *ast.CallExpr:
+					if src(n.Fun) == "append" && len(n.Args) >= 2 && !inLoop(fd.Body, n) {
+						if _, nested := n.Args[0].(*ast.CallExpr); !nested && strings.Contains(src(n.Args[0]), "chunk") {
+							firstChunk = true
+						}
+					}
+				case *ast.CompositeLit:
+					if strings.HasPrefix(src(n.Type), "[][]byte") && len(n.Elts) > 0 && !inLoop(fd.Body, n) {
+						firstChunk = true
+					}
+				}
+				return true
+			})
+		}
+		g.def("firstChunkUnconditional", "Bool", boolLean(firstChunk))
+		qf := parse("h2/queued_frames.go")
+		uncond := true
+		for _, pair := range [][2]string{{"queuedHeaderFrame", "WriteHeaders"}, {"queuedPushPromiseFrame", "WritePushPromise"}} {
+			fd := funcDecl(qf, pair[0], "send")
+			ok := false
+			if fd != nil {
+				ast.Inspect(fd.Body, func(x ast.Node) bool {
+					if c, isCall := x.(*ast.CallExpr); isCall && strings.HasSuffix(src(c.Fun), "."+pair[1]) && !inLoop(fd.Body, c) {
+						ok = true
+					}
+					return true
+				})
+			}
+			uncond = uncond && ok
+		}
+		g.def("headersFrameWrittenUnconditionally", "Bool", boolLean(uncond))
+
 		// forwardPreface reads the whole preface (io.ReadFull), not whatever one Read returns
 		h2f := parse("h2/h2.go")
 		full := false
